@@ -14,7 +14,7 @@ class Ob:
 
     def __init__(self, name, props, enforce=None, replace=(), harness=None, entry=None, defines=(), contracts=(),
                  unwind=20, unwindset=None, timeout=300, flags=(), canary=True, bounded=None, note='', reveal=(),
-                 tier='quick', solver=None, expect_fail=(), args=None, pre='', split=0):
+                 tier='quick', solver=None, expect_fail=(), args=None, pre='', split=0, only_desc=None, skip_desc=None):
         self.name = name
         self.props = props if isinstance(props, (list, tuple)) else [props]
         self.enforce = enforce
@@ -35,6 +35,8 @@ class Ob:
         self.expect_fail = list(expect_fail)   # obligation-id regexes that are known findings' raw failures
         self.args = args              # optional explicit harness body for the enforced call
         self.pre = pre
+        self.only_desc = only_desc    # regex on the property description: check only these (besides the canary)
+        self.skip_desc = skip_desc    # regex on the property description: these belong to another obligation group
         self.split = split            # > 0: check the properties in this many groups, in parallel (each group is sliced separately)
 
 
@@ -44,8 +46,14 @@ def _limits():
 
 def run(cmd, timeout, cwd=None, out=None):
     t0 = time.time()
+    # temporary files of the tools (CNF files for the external SAT solver, goto-cc scratch) go to the obligation's own directory,
+    # which is removed with the run, and not to /tmp where a killed solver would leave them behind
+    env = dict(os.environ)
+    tmp = cwd or next((os.path.dirname(c) for c in cmd if isinstance(c, str) and '/out/run-' in c and os.path.isdir(os.path.dirname(c))), None)
+    if tmp:
+        env['TMPDIR'] = tmp
     try:
-        p = subprocess.run(cmd, stdout=subprocess.PIPE, stderr=subprocess.PIPE, timeout=timeout, cwd=cwd, preexec_fn=_limits)
+        p = subprocess.run(cmd, stdout=subprocess.PIPE, stderr=subprocess.PIPE, timeout=timeout, cwd=cwd, preexec_fn=_limits, env=env)
         return p.returncode, p.stdout.decode(errors='replace'), p.stderr.decode(errors='replace'), time.time() - t0
     except subprocess.TimeoutExpired as e:
         return -9, (e.stdout or b'').decode(errors='replace'), 'TIMEOUT after %ds' % timeout, time.time() - t0
@@ -345,7 +353,13 @@ def run_ob(ob, gen_dir, work, meta):
         for blk in json.loads(so):
             if isinstance(blk, dict) and 'properties' in blk:
                 for p in blk['properties']:
-                    (canaries if 'WV_CANARY' in p.get('description', '') else names).append(p['name'])
+                    ds = p.get('description', '')
+                    if 'WV_CANARY' in ds:
+                        canaries.append(p['name'])
+                    elif (ob.only_desc and not re.search(ob.only_desc, ds)) or (ob.skip_desc and re.search(ob.skip_desc, ds)):
+                        res['properties_left_to_other_groups'] = res.get('properties_left_to_other_groups', 0) + 1
+                    else:
+                        names.append(p['name'])
     except Exception:
         pass
     if not names:
@@ -386,6 +400,26 @@ def run_ob(ob, gen_dir, work, meta):
                 if not res['reason']:
                     res['reason'] = 'cbmc gave no result block in split mode'
                 return res
+        # properties the external solver could not decide (it is not incremental and, measured, runs out of memory on some
+        # satisfiable instances: status ERROR) are decided again by CBMC's built-in MiniSat
+        err = [r_.get('property') for r_ in merged if r_.get('status') == 'ERROR']
+        if err and solver != 'minisat':
+            base_cmd = [c_ for c_ in cmd if c_ not in ('--external-sat-solver', 'kissat')]
+            rc, so2, se2, secs2 = run(base_cmd + [x for n_ in err for x in ('--property', n_)], ob.timeout)
+            res['solver_seconds'] += round(secs2, 1)
+            res['fallback_minisat_properties'] = len(err)
+            if rc == -9:
+                res['reason'] = 'solver timeout after %ds (built-in SAT fall-back for %d properties the external solver left undecided)' % (ob.timeout, len(err))
+                return res
+            try:
+                again = [r_ for blk in json.loads(so2) if isinstance(blk, dict) and 'result' in blk for r_ in blk['result']]
+            except Exception:
+                again = []
+            if again:
+                done = {r_.get('property') for r_ in again}
+                merged = [r_ for r_ in merged if r_.get('property') not in done] + again
+                if all(r_.get('status') != 'ERROR' for r_ in merged):
+                    res['reason'] = ''
         js = [{'result': merged}]
         so = json.dumps(js)
         open(os.path.join(d, 'cbmc.json'), 'w').write(so)
